@@ -345,6 +345,8 @@ def run(ctx, R, tier):
             "the back-off generator can run out: after that many retryable errors in a row next() raises StopIteration out of receive_data / send_data - the caller gets "
             "neither its bytes nor a ConnectionClosedError / TimeoutError")
 
+    from .common import names_bound
+    names_bound(ctx, R, "C17-R2", {"Pyro5.socketutil"}, "a read or write ends with NameError instead of data, ConnectionClosedError or TimeoutError")
     # only the connection-closed error carries partialData: a handler that reads it must not catch anything wider
     n_pd = 0
     for g in p.functions.values():
